@@ -2379,6 +2379,31 @@ def sql_sites(m: Module) -> list[dict]:
     return sites
 
 
+def _table_driven(arg: ast.Name, call: ast.Call) -> list[tuple[ast.AST, str]] | None:
+    """`for column, values in [("a", x), ("b", y)]: helper(column, values)` — the constants a loop variable ranges over."""
+    from ..astx import expand
+    from ..index import parent
+    p = parent(call)
+    while p is not None and not isinstance(p, (ast.FunctionDef, ast.AsyncFunctionDef)):
+        if isinstance(p, ast.For):
+            tg = p.target
+            elts = tg.elts if isinstance(tg, ast.Tuple) else [tg]
+            idx = next((i for i, e in enumerate(elts) if isinstance(e, ast.Name) and e.id == arg.id), None)
+            if idx is not None:
+                it = expand(p.iter, p, depth=1)
+                if not isinstance(it, (ast.List, ast.Tuple)):
+                    return None
+                out = []
+                for row in it.elts:
+                    cell = row.elts[idx] if isinstance(tg, ast.Tuple) and isinstance(row, ast.Tuple) and len(row.elts) > idx else (row if not isinstance(tg, ast.Tuple) else None)
+                    if not (isinstance(cell, ast.Constant) and isinstance(cell.value, str)):
+                        return None
+                    out.append((cell, cell.value))
+                return out
+        p = parent(p)
+    return None
+
+
 def _column_args(m: Module, site: dict) -> list[tuple[ast.AST, str]]:
     """Constant strings passed for a parameter of a local helper that is interpolated into SQL text
     (`add_in_clause("status", ...)` with f"{column} IN (...)")."""
@@ -2394,6 +2419,8 @@ def _column_args(m: Module, site: dict) -> list[tuple[ast.AST, str]]:
                     arg = c.args[idx] if len(c.args) > idx else next((k.value for k in c.keywords if k.arg == h.id), None)
                     if isinstance(arg, ast.Constant) and isinstance(arg.value, str):
                         out.append((arg, arg.value))
+                    elif isinstance(arg, ast.Name) and _table_driven(arg, c) is not None:
+                        out += _table_driven(arg, c)
                     elif arg is not None:
                         raise AnchorError(f"C28.R3: column name passed to `{fn.name}` in {m.rel} is not a constant (`{ast.unparse(arg)[:40]}`)")
     return out
